@@ -41,7 +41,11 @@ ASSUME = ["h5py, pandas and cyvcf2 read back what they were given (trusted base)
           "VCF: integer contig names (the reader documents integer chromosome groups); a missing ID ('.') may be "
           "reported as '.', 'None' or None"]
 
-GROUPS = [None, "g", "g/h/", "a/b"]
+GROUPS = [None, "g", "g/h/", "a/b"]      # structure; the spelling of the last one rotates with VERIF_SEED
+
+
+def group_names(seed):
+    return [None, "g", "g/h/", ["a/b", "ä–x/β", "grp 1/sub.2"][seed % 3]]
 GROUP_META = ("taxa_grp_name", "taxa_grp_stix", "taxa_grp_spix", "taxa_grp_len",
               "vrnt_chrgrp_name", "vrnt_chrgrp_stix", "vrnt_chrgrp_spix", "vrnt_chrgrp_len")
 
@@ -63,7 +67,32 @@ ALL_CLASSES = _classes()
 
 
 # ----------------------------------------------------------------------------
+def _only():
+    """VERIF_C16_ONLY="hdf5:DenseGenotypeMatrix,vcf" restricts a run to some shards (mutation experiments / debugging);
+    such a run is marked non-exhaustive and skips the vacuity guards."""
+    v = os.environ.get("VERIF_C16_ONLY", "").strip()
+    return [tuple(x.split(":")) for x in v.split(",") if x] if v else None
+
+
+def _selected(spec, only):
+    for f in only:
+        if f[0] != spec[0]:
+            continue
+        if len(f) == 1:
+            return True
+        names = spec[1] if isinstance(spec[1], list) else [spec[1]]
+        if spec[0] == "vcf" or f[1] in [str(n) for n in names]:
+            return True
+    return False
+
+
 def shards(tier, seed):
+    out = _all_shards(tier, seed)
+    only = _only()
+    return [s for s in out if _selected(s, only)] if only else out
+
+
+def _all_shards(tier, seed):
     out = []
     T = tier == "thorough"
     for name in HDF5_CLASSES:
@@ -196,6 +225,7 @@ class H5Explorer:
         self.seed, self.tier = seed, tier
         self.kind = P.CLASSES[name]["kind"]
         self.last_status = {}
+        self.groups = group_names(seed)
 
     # -- model ------------------------------------------------------------
     def fresh_datasets(self, i, group):
@@ -212,7 +242,7 @@ class H5Explorer:
     def apply(self, parent_bytes, history, model, ev, prev_ok=None):
         """ev = (obj idx, group idx, via).  Returns (file state, file bytes, new model) or None after a write error."""
         i, gi, via = ev
-        group = GROUPS[gi]
+        group = self.groups[gi]
         ctx = self.ctx
         if parent_bytes is None:
             if os.path.exists(self.work):
@@ -246,14 +276,15 @@ class H5Explorer:
             a, b = self.profs[model[P.norm_group(group)][0]], self.profs[i]
             ra, rb = len(a.get("present", ())) + a.get("grouped", 0), len(b.get("present", ())) + b.get("grouped", 0)
             ctx.flag("overwrite:rich->poor" if ra > rb else "overwrite:poor->rich" if ra < rb else "overwrite:same-rank")
-            ctx.count(f"overwrites:{self.name}")
+            ctx.count("hdf5-overwrites")
+            ctx.flag(f"overwrite:{self.name}")
         if len(new_model) > 1:
             ctx.flag("two-locations-in-one-file")
         if len(new_model) > 1 and any(x != y and x.startswith(y) for x in new_model for y in new_model if y):
             ctx.flag("nested-locations")
         ctx.flag(f"via:{via}")
-        ctx.flag(f"group:{group}")
-        ctx.count(f"hdf5-transitions:{self.name}")
+        ctx.flag(f"group-index:{gi}")
+        ctx.count("hdf5-writes")
         with open(self.work, "rb") as f:
             data = f.read()
         return sd, data, new_model
@@ -270,7 +301,7 @@ class H5Explorer:
             ck = (loc, i if self.kind == "pt" else None)
             if ck not in cache:
                 try:
-                    rb = _read(self.cls, self.work, GROUPS[gi], _via(len(hist) + k, None), _read_kwargs(self.name, self.objs[i]))
+                    rb = _read(self.cls, self.work, self.groups[gi], _via(len(hist) + k, None), _read_kwargs(self.name, self.objs[i]))
                     cache[ck] = (P.obs_digest(P.observe(rb)), None if type(rb) is self.cls else type(rb).__name__)
                 except Exception as e:
                     cache[ck] = (("exc", f"{type(e).__name__}@{_site(e)}", str(e)[:300]), None)
@@ -295,7 +326,7 @@ class H5Explorer:
         where = ":clobbered-by-write-elsewhere" if (was_ok and not last_here) else ""
         # classification: datasets left behind by an earlier write?
         actual = P.under(state, loc, list(model))
-        fresh = self.fresh_datasets(i, GROUPS[gi])
+        fresh = self.fresh_datasets(i, self.groups[gi])
         extra = sorted(set(actual) - set(fresh))
         if extra:
             kind = "nested-dict-key" if any("/" in x for x in extra) else "optional-field"
@@ -303,7 +334,7 @@ class H5Explorer:
                           f"{self.name}: after history {self.describe(hist)} location '{loc}' still holds dataset(s) {extra} "
                           f"that the last object written there ({self.profs[i]['id']}) does not have; read-back: "
                           f"{self.why(loc, i, gi, got)}", case)
-            ctx.count(f"stale:{self.name}")
+            ctx.count("hdf5-stale-reads")
             return
         if isinstance(got, tuple) and got and got[0] == "exc":
             sc_, _ = sig_class(self.cls, ("from_hdf5",))
@@ -322,14 +353,14 @@ class H5Explorer:
 
     def why(self, loc, i, gi, got, raw=False):
         try:
-            rb = _read(self.cls, self.work, GROUPS[gi], "str", _read_kwargs(self.name, self.objs[i]))
+            rb = _read(self.cls, self.work, self.groups[gi], "str", _read_kwargs(self.name, self.objs[i]))
             d = P.diff(self.exp[i], P.observe(rb))
         except Exception as e:
             d = ("<raises>", "exception", f"{type(e).__name__}: {e}"[:200])
         return d if raw else str(d)
 
     def describe(self, hist):
-        return [f"{self.profs[i]['id']}@{GROUPS[gi]!r}" for i, gi, _ in hist]
+        return [f"{self.profs[i]['id']}@{self.groups[gi]!r}" for i, gi, _ in hist]
 
     def case(self, hist):
         return dict(kind="hdf5", cls=self.name, tier=self.tier, seed=self.seed,
@@ -380,7 +411,7 @@ def run_hdf5(ctx, sc, name, first_group):
         depth, ptier, first_group = 2, "wide", None
     elif first_group == "d3":
         depth, ptier, first_group = 3, "thorough", None
-    ctx.bounds.update({"hdf5_history_depth": 4 if ctx.tier == "thorough" else 3, "hdf5_groupnames": [repr(g) for g in GROUPS],
+    ctx.bounds.update({"hdf5_history_depth": 4 if ctx.tier == "thorough" else 3, "hdf5_groupnames": [repr(g) for g in group_names(ctx.seed)],
                        "hdf5_pool_profiles": "rich / labels / bare / partial (quick: depth 3; thorough: depth 4); thorough adds "
                                              "rich-small at depth 3 and partial2 (later optional fields only) at depth 2; models: 5 parameter "
                                              "profiles; G_E_Phenotyping: 4; unlabelled matrices: 3-4 value/shape/dtype variants",
@@ -535,7 +566,7 @@ def table_case(ctx, sc, name, prof, cid, form, seed):
     ctx.nontriv(digest(("table", name, prof["id"], cid, form)))
     ctx.flag(f"table:{P.CLASSES[name]['pandas']}:{cid}")
     ctx.flag(f"table-form:{form}")
-    ctx.count(f"table-cases:{name}")
+    ctx.count("table-cases")
 
 
 def run_table(ctx, sc, name):
@@ -661,7 +692,7 @@ def copy_case(ctx, name, prof, how, seed):
 
     ok = ctx.guard(go, case=case)
     ctx.flag(f"copy-way:{how}")
-    ctx.count(f"copies:{name}")
+    ctx.count("copies")
     ctx.outcome(digest(("copy", name, prof["id"], how, ok)))
     if not ok or "deep" not in how:
         if ok:
@@ -976,6 +1007,9 @@ def run_vcf(ctx, sc, spec):
 
 # ----------------------------------------------------------------------------
 def finalize(ctx, tier, seed):
+    if _only():
+        ctx.capped.append("VERIF_C16_ONLY=%s: partial run" % os.environ.get("VERIF_C16_ONLY"))
+        return
     ctx.bounds["classes_not_constructed"] = NOT_CONSTRUCTED
     ctx.bounds["classes"] = {"hdf5": len(HDF5_CLASSES), "table": len(TABLE_CLASSES), "copy": len(ALL_CLASSES)}
     # quick tier cap is a declared bound of the tier, not a truncation of the stated quick scope
@@ -984,18 +1018,17 @@ def finalize(ctx, tier, seed):
         ctx.bounds["vcf_3x3_quick"] = "4^5 call prefixes x rotating layouts"
     for name in HDF5_CLASSES:
         assert f"hdf5:{name}" in ctx.flags, name
-        assert ctx.counters.get(f"hdf5-transitions:{name}", 0) > 0, name
-        assert ctx.counters.get(f"overwrites:{name}", 0) > 0, name
+        assert f"overwrite:{name}" in ctx.flags, name
     for name in TABLE_CLASSES:
-        assert ctx.counters.get(f"table-cases:{name}", 0) > 0, name
+        assert f"table:{name}" in ctx.flags, name
     for name in ALL_CLASSES:
-        assert ctx.counters.get(f"copies:{name}", 0) > 0, name
+        assert f"copy:{name}" in ctx.flags, name
     for f in ("overwrite:rich->poor", "overwrite:poor->rich", "two-locations-in-one-file", "nested-locations",
               "via:str", "via:path", "via:handle", "table-form:pandas", "table-form:csv", "copy-mutation-applied",
               "vcf:tie", "vcf:missing-id", "vcf:two-contigs", "vcf:unsorted", "vcf:3x3", "vcf:2x2", "vcf:1x1"):
         assert f in ctx.flags, f
-    for g in GROUPS:
-        assert f"group:{g}" in ctx.flags, g
+    for gi in range(len(GROUPS)):
+        assert f"group-index:{gi}" in ctx.flags, gi
     for how in COPY_WAYS:
         assert f"copy-way:{how}" in ctx.flags, how
     assert ctx.counters.get("copy-mutations", 0) > 1000, ctx.counters.get("copy-mutations")
